@@ -181,3 +181,40 @@ func vfH_C04_send() {
 	}
 	vfAssert("send/inflight-untouched", uint32(k.snd_buf.Len()) == uint32(sh.sndBuf))
 }
+
+// C04, last clause: a session's Write is admitted only while fewer than a send window of
+// segments are pending, and otherwise blocks without queueing anything. Sequential: the call
+// is run until it returns or blocks (the wake-up side is C13).
+func vfH_C04_session_write_admission() {
+	conn := vfNewConn()
+	s := vfNewSession(vfU32("conv"), 0, 0, nil, conn, vfServerAddr, nil)
+	s.SetNoDelay(0, 100, 0, 1)
+	w := vfPick("snd_wnd", 1, 3)
+	s.SetWindowSize(w, 32)
+	s.SetWriteDelay(vfPick("writeDelay", 0, 1) == 1)
+	vfAssert("adm/mtu", s.SetMtu(IKCP_OVERHEAD+3))
+	stream := vfPick("stream", 0, 1) == 1
+	if stream {
+		s.SetStreamMode(true)
+	}
+	vfSetClock(vfU32("t0"))
+	vfReach("pre")
+	sawBlock := false
+	for i := 0; i < 5 && !sawBlock; i++ {
+		before := s.kcp.WaitSnd()
+		l := []int{1, 3, 4, 7}[vfPick(vfName("wlen", i), 0, 3)]
+		var n int
+		var err error
+		blocked := vfCallMayBlock(func() { n, err = s.Write(vfBytes(vfName("w", i), l)) })
+		vfAssert("c04/write-admitted-iff-fewer-than-a-send-window-pending", blocked == (before >= w))
+		if blocked {
+			sawBlock = true
+			vfAssert("c04/blocked-write-queues-nothing", s.kcp.WaitSnd() == before)
+		} else {
+			vfAssert("adm/admitted-write-reports-its-length", vfAnd(n == l, err == nil))
+			vfAssert("adm/admitted-write-is-queued", s.kcp.WaitSnd() > before || stream) // stream mode may fill the last queued segment
+		}
+	}
+	vfReach("post")
+	s.Close() // native: releases a writer left blocked
+}
